@@ -385,7 +385,14 @@ class AsyncFIXConnection:
                             continue
                         break
 
-                    await self._process_message(decoded_msg, raw_msg)
+                    try:
+                        await self._process_message(decoded_msg, raw_msg)
+                    except (asyncio.CancelledError, OSError):
+                        raise
+                    except Exception:
+                        # failed message must not hold back the ones which were
+                        #  received with it (they are in the buffer already)
+                        self.log.exception("socket_read_task: message processing failed")
             except asyncio.CancelledError:
                 return
             except OSError as why:
